@@ -14,6 +14,7 @@ import (
 func init() {
 	verifRegister("VerifC08_Handshake", VerifC08_Handshake)
 	verifRegister("VerifC08_BrokenStream", VerifC08_BrokenStream)
+	verifRegister("VerifC08_CloseAfterBreak", VerifC08_CloseAfterBreak)
 }
 
 const (
@@ -191,4 +192,60 @@ func VerifC08_BrokenStream() {
 	_ = toSrvW.Close()
 	fs.done.Wait()
 	verifReach("C08/stream/end")
+}
+
+// the server goes away completely (its output ends and the client's writes fail) while a run was started with a
+// signal channel the caller never closes: Execute returns, Close returns (an error is fine), nothing panics or hangs
+func VerifC08_CloseAfterBreak() {
+	toSrvR, toSrvW := verifNewPipe()
+	fromSrvR, fromSrvW := verifNewPipe()
+	reply := nondetChoice("reply", 3) // 0: intact work-done first, 1: nothing, 2: garbage
+	withSignals := nondetBool("signalChannel")
+	var srv sync.WaitGroup
+	srv.Add(1)
+	verifSchedQuiet(true)
+	go func() {
+		defer srv.Done()
+		enc, dec := cbor.NewEncoder(fromSrvW), cbor.NewDecoder(toSrvR)
+		if !verifServeHello(enc, dec, fromSrvW, helloOK, 3) {
+			return
+		}
+		var m DecodedRuntimeMessage
+		if err := dec.Decode(&m); err != nil {
+			return
+		}
+		switch reply {
+		case 0:
+			_ = enc.Encode(RuntimeMessage{MessageTypeWorkDone, m.RunID, WorkDoneMessage{StepID: "inc", OutputID: "ok", OutputData: map[string]any{"o": int64(7)}}})
+		case 2:
+			verifPipeGarbage(fromSrvW)
+		}
+		// the plugin process dies: both directions are gone
+		_ = toSrvR.Close()
+		_ = fromSrvW.Close()
+	}()
+	client := NewClientWithLogger(&verifChan{r: fromSrvR, w: toSrvW}, nil)
+	_, err := client.ReadSchema()
+	verifSchedQuiet(false)
+	verifAssert("C08/close/handshake", err == nil)
+	if err != nil {
+		return
+	}
+	verifReach("C08/close/started")
+	var toStep chan schema.Input
+	if withSignals {
+		toStep = make(chan schema.Input) // never closed by the caller (closing is only recommended)
+	}
+	var res ExecutionResult
+	if withSignals {
+		res = client.Execute(schema.Input{RunID: "r1", ID: "inc", InputData: map[string]any{"n": int64(1)}}, toStep, nil)
+	} else {
+		res = client.Execute(schema.Input{RunID: "r1", ID: "inc", InputData: map[string]any{"n": int64(1)}}, nil, nil)
+	}
+	verifAssert("C08/close/success-only-if-work-done-arrived", vImplies(res.Error == nil, reply == 0))
+	srv.Wait()
+	cerr := client.Close()
+	verifObserve("closeFailed", cerr != nil)
+	verifLeakCheck(true)
+	verifReach("C08/close/end")
 }
